@@ -90,6 +90,10 @@ def gen(tier, rng):
             pad = '{"error":"invalid_client","error_description":""}'
             if k >= len(pad):
                 out.append((c05.http_line("async", "revoke", False, status, b"application/json", pad.replace('""', '"%s"' % ("d" * (k - len(pad))))), "source-literal/body-size"))
+    for size in (65537, 262145):
+        for status in (200, 400, 503):
+            for ct in (None, b"text/html"):
+                out.append((c05.http_line("sync" if size % 2 else "async", "revoke", False, status, ct, b"<" * size), "large-body"))
     n = 100 if tier == "quick" else 5000
     for _ in range(n):
         em = D.error_members(rng)
@@ -120,6 +124,22 @@ def run(tier, rng, C):
     import os
     cases = gen(tier, rng)
     v, stats = C.differential("C13", cases, nontrivial=lambda l, o: o.startswith("ok ") or o.startswith("server ") or o.startswith("insecure"))
+    # bodies beyond a megabyte (too large for the extracted model in a quick run): the body of a 200 is ignored whatever its
+    # size, and an error document with an unknown member of that size is reported like the document without it
+    from gen import srclit as SL
+    pairs = []
+    err = [("error", "unsupported_token_type"), ("error_description", "d")]
+    for size in [1048577, 3 * 1048576 + 1] + SL.sizes(limit=16 * 1048576, lo=300001):
+        for ct in (None, b"text/html"):
+            pairs.append((c05.http_line("sync", "revoke", False, 200, ct, b"<"), c05.http_line("sync", "revoke", False, 200, ct, b"<" * size)))
+            pairs.append((c05.http_line("async", "revoke", False, 200, ct, b"{}"), c05.http_line("async", "revoke", False, 200, ct, D.render(D.obj([("padding", "x" * size)]), rng, plain=True))))
+        for status in (400, 503):
+            pairs.append((c05.http_line("sync", "revoke", False, status, b"application/json", D.render(D.obj(err), rng, plain=True)),
+                          c05.http_line("sync", "revoke", False, status, b"application/json", D.render(D.obj(err + [("padding", "x" * size)]), rng, plain=True))))
+    bad, nbig = C.invariance("C13", pairs, "a reply of more than 1 MiB is classified like the small reply it differs from only by ignored content")
+    v += bad
+    stats["large_reply_pairs"] = nbig
+    stats["evaluations"] = stats.get("evaluations", 0) + nbig
     cc = cfg_cases()
     C.IMPL_BIN[0] = os.path.join(C.TARGET, "debug", "harness_cfg")
     try:
